@@ -13,7 +13,8 @@
 // Script format: see exec_common.hh ("C <chk> <op> <a> <b> <f> <n> <l...> [| name]").
 //   a = mesh (1..3), b = handle slot (1..4), f = flag, l = integers, name = property name
 //   request|create_shared|create_persistent|create_private|get_property  a b l=[kind,type,def] name
-//   property_exists a l=[kind,type,def] name        (kind 1 V, 2 HE, 3 M; type 1 int, 2 bool)
+//   property_exists a l=[kind,type,def] name        (kind 1 V, 2 HE, 3 M, 4 E, 5 F, 6 HF, 7 C; type 1 int, 2 bool)
+//   touch b        every element read and written back through the handle, for every entity index of its mesh
 //   set_shared|set_persistent a b f                 set_name b name
 //   h_copy|h_move b l=[target slot]                 h_drop b
 //   clear_props a l=[kind]   clear_all_props a   clear a f
@@ -55,7 +56,7 @@ using TPolyM = TopologicPolyhedralMesh;      // = TopologyKernel
 using TTetM = TopologicTetrahedralMesh;      // = TetrahedralMeshTopologyKernel
 using THexM = TopologicHexahedralMesh;       // = HexahedralMeshTopologyKernel
 
-static const int NMESH = 3, NSLOT = 4;
+static const int NMESH = 3, NSLOT = 4, NKIND = 7;
 
 // ---------------------------------------------------------------- access to protected state (read only)
 struct Acc : TopologyKernel {
@@ -166,6 +167,7 @@ struct HBase {
     virtual std::shared_ptr<PropertyStorageBase> sp() const = 0;
     virtual void dump_view(Json &j) const = 0;
     virtual void write(size_t idx, long long v) = 0;
+    virtual void touch(size_t n) = 0;                      // p[h] read and written back for h = 0 .. n-1
     virtual void set_name(const std::string &s) = 0;
     virtual void set_shared(TopologyKernel &m, bool on) = 0;
     virtual void set_persistent(TopologyKernel &m, bool on) = 0;
@@ -199,6 +201,9 @@ template <class T, class Tag> struct H : HBase {
         j.key("v"); j.begin_arr(); for (auto it = p.begin(); it != p.end(); ++it) j.val(Val<T>::code((T)*it)); j.end_arr();
     }
     void write(size_t idx, long long v) override { p[HandleT<Tag>((int)idx)] = Val<T>::make(v); }
+    void touch(size_t n) override {
+        for (size_t i = 0; i < n; ++i) { HandleT<Tag> h((int)i); T v = p[h]; p[h] = v; }
+    }
     void set_name(const std::string &s) override { p.set_name(s); }
     void set_shared(TopologyKernel &m, bool on) override { m.set_shared(p, on); }
     void set_persistent(TopologyKernel &m, bool on) override { m.set_persistent(p, on); }
@@ -210,6 +215,10 @@ template <class F> static void with_kt(int kind, int type, F f) {
         if (kind == 1) f(T(), Entity::Vertex());
         else if (kind == 2) f(T(), Entity::HalfEdge());
         else if (kind == 3) f(T(), Entity::Mesh());
+        else if (kind == 4) f(T(), Entity::Edge());
+        else if (kind == 5) f(T(), Entity::Face());
+        else if (kind == 6) f(T(), Entity::HalfFace());
+        else if (kind == 7) f(T(), Entity::Cell());
         else { fprintf(stderr, "bad kind %d\n", kind); exit(3); }
     };
     if (type == 1) on_kind(int());
@@ -299,13 +308,33 @@ static std::string do_call(World &w, const CallRec &c) {
         if (op == "clear_props") {
             TopologyKernel &m = w.live(c.a);
             int k = (int)L(0);
-            if (k == 1) m.clear_props<Entity::Vertex>(); else if (k == 2) m.clear_props<Entity::HalfEdge>();
-            else m.clear_props<Entity::Mesh>();
+            with_kt(k, 1, [&](auto, auto tag) { m.clear_props<decltype(tag)>(); });
             return "ok";
         }
         if (op == "clear_all_props") { w.live(c.a).clear_all_props(); return "ok"; }
         if (op == "clear") { w.live(c.a).clear(c.f); return "ok"; }
         if (op == "write") { w.bound(c.b).write((size_t)L(0), L(1)); return "ok"; }
+        if (op == "touch") {
+            // the caller indexes the property with every entity handle of the mesh it belongs to
+            HBase &h = w.bound(c.b);
+            auto sp = h.sp();
+            size_t n = sp->size();
+            for (auto &ms : w.mesh) {
+                if (!ms.alive()) continue;
+                TopologyKernel &m = *ms.tk();
+                bool mine = false;
+                for (PropertyStorageBase *q : Acc::tracker(m, sp->entity_type())) if (q == sp.get()) mine = true;
+                if (!mine) continue;
+                switch (sp->entity_type()) {
+                case EntityType::Vertex: n = m.n_vertices(); break; case EntityType::Edge: n = m.n_edges(); break;
+                case EntityType::HalfEdge: n = m.n_halfedges(); break; case EntityType::Face: n = m.n_faces(); break;
+                case EntityType::HalfFace: n = m.n_halffaces(); break; case EntityType::Cell: n = m.n_cells(); break;
+                case EntityType::Mesh: n = 1; break;
+                }
+            }
+            h.touch(n);
+            return "ok";
+        }
         if (op == "set_vertex") {
             w.live(c.a);
             double p = (double)L(1);
@@ -467,12 +496,18 @@ static void dump_world(Json &j, World &w) {
         if (w.mesh[i].alive()) {
             TopologyKernel &m = *w.mesh[i].tk();
             j.kv("ty", mtype_str(w.mesh[i].ty));
-            j.key("n"); j.begin_arr(); j.val(m.n_vertices()); j.val(m.n_halfedges()); j.val((long long)1); j.end_arr();
-            j.key("np"); j.begin_arr(); j.val(m.n_props<Entity::Vertex>()); j.val(m.n_props<Entity::HalfEdge>()); j.val(m.n_props<Entity::Mesh>()); j.end_arr();
-            j.key("npp"); j.begin_arr(); j.val(m.n_persistent_props<Entity::Vertex>()); j.val(m.n_persistent_props<Entity::HalfEdge>()); j.val(m.n_persistent_props<Entity::Mesh>()); j.end_arr();
+            // per kind, in the order of the kind indices 1..7 = V HE M E F HF C
+            j.key("n"); j.begin_arr(); j.val(m.n_vertices()); j.val(m.n_halfedges()); j.val((long long)1);
+            j.val(m.n_edges()); j.val(m.n_faces()); j.val(m.n_halffaces()); j.val(m.n_cells()); j.end_arr();
+            j.key("np"); j.begin_arr();
+            for (int k = 1; k <= NKIND; ++k) with_kt(k, 1, [&](auto, auto tag) { j.val(m.n_props<decltype(tag)>()); });
+            j.end_arr();
+            j.key("npp"); j.begin_arr();
+            for (int k = 1; k <= NKIND; ++k) with_kt(k, 1, [&](auto, auto tag) { j.val(m.n_persistent_props<decltype(tag)>()); });
+            j.end_arr();
             // lookups for every key of the universe: kinds V HE M x types int bool x names a b
             std::vector<int> fd; std::vector<int> ex;
-            for (int k = 1; k <= 3; ++k) for (int t = 1; t <= 2; ++t) for (const char *nm : {"a", "b"})
+            for (int k = 1; k <= NKIND; ++k) for (int t = 1; t <= 2; ++t) for (const char *nm : {"a", "b"})
                 with_kt(k, t, [&](auto tval, auto tag) {
                     using T = decltype(tval); using Tag = decltype(tag);
                     auto o = m.get_property<T, Tag>(nm);
